@@ -221,14 +221,44 @@ func universeRule(c *Ctx, rule string) {
 				return
 			}
 			nSt++
-			okSrc := false
-			if call, ok := st.Val.(*ssa.Call); ok && strings.HasSuffix(calleeName(&call.Call), ".Uint32") {
-				src := call.Call.Args[len(call.Call.Args)-1]
-				if gc, ok := peel(src).(*ssa.Call); ok && calleeName(&gc.Call) == "(*go.etcd.io/bbolt.Bucket).Get" && keyKind(c, gc.Call.Args[1]) == "rows" {
-					okSrc = true
+			var okRowSrc func(v ssa.Value, depth int) bool
+			okRowSrc = func(v ssa.Value, depth int) bool {
+				if call, ok := v.(*ssa.Call); ok && strings.HasSuffix(calleeName(&call.Call), ".Uint32") {
+					src := call.Call.Args[len(call.Call.Args)-1]
+					if gc, ok := peel(src).(*ssa.Call); ok && calleeName(&gc.Call) == "(*go.etcd.io/bbolt.Bucket).Get" && keyKind(c, gc.Call.Args[1]) == "rows" {
+						return true
+					}
+					return false
+				}
+				// the result of a header-reading helper: every return that carries a nil error returns the decoded item
+				if depth < 2 {
+					if _, callee, _, ok := resultOrigins(c.w, v); ok {
+						idx := 0
+						if e, isE := v.(*ssa.Extract); isE {
+							idx = e.Index
+						}
+						n, good := 0, true
+						allInstrs(callee, func(i ssa.Instruction) {
+							if !isSuccessReturn(i) {
+								return
+							}
+							n++
+							if !okRowSrc(retVals(i.(*ssa.Return))[idx], depth+1) {
+								good = false
+							}
+						})
+						return n > 0 && good
+					}
+				}
+				return false
+			}
+			okSrc := okRowSrc(st.Val, 0)
+			inOpen := false
+			for _, of := range c.scope(c.a.OpenFromDB, 2) {
+				if of == fn {
+					inOpen = true
 				}
 			}
-			inOpen := fn == c.a.OpenFromDB || fn.Parent() == c.a.OpenFromDB
 			c.r.check(okSrc && inOpen, rule, safeFname(fn)+": row count", "row count := decoded row-counter item, while opening", "the index's row count is assigned from something other than the decoded row-counter item, or outside the open function", c.w.ipos(i))
 		})
 	}
@@ -416,81 +446,9 @@ func opmapRule(c *Ctx, rule string) {
 			continue
 		}
 		// the combined slice is built by appending, for every element of e.Exprs in range order, that element's eval result
-		okOps, why := false, "the combined operands are not exactly the evaluation results of all elements of Exprs"
 		arg := cb.Call.Args[len(cb.Call.Args)-1]
-		for _, o := range appendOrigins(arg) {
-			_ = o
-		}
-		var appends []*ssa.Call
-		seen := map[ssa.Value]bool{}
-		var walk func(v ssa.Value)
-		walk = func(v ssa.Value) {
-			if seen[v] {
-				return
-			}
-			seen[v] = true
-			switch x := v.(type) {
-			case *ssa.Phi:
-				for _, e := range x.Edges {
-					walk(e)
-				}
-			case *ssa.Call:
-				if b, ok := x.Call.Value.(*ssa.Builtin); ok && b.Name() == "append" {
-					appends = append(appends, x)
-					walk(x.Call.Args[0])
-				}
-			}
-		}
-		walk(arg)
-		if len(appends) == 1 {
-			ap := appends[0]
-			el := variadicElem(ap.Call.Args[1])
-			if e, ok := el.(*ssa.Extract); ok && e.Index == 0 {
-				if ec, ok := e.Tuple.(*ssa.Call); ok && ec.Call.IsInvoke() && ec.Call.Method.Name() == "eval" {
-					// receiver: element of e.Exprs at the range index
-					if ld, ok := ec.Call.Value.(*ssa.UnOp); ok {
-						if ia, ok := ld.X.(*ssa.IndexAddr); ok && path(ia.X).lastField() == exprsF {
-							ib, io := lin(ia.Index)
-							if lb, isCtr := phiLower(ib); isCtr && lb+io == 0 {
-								upper := false
-								for _, cm := range cmpsAt(ec) {
-									if cm.Y != nil && cm.Op == token.LSS && cm.X == ia.Index && isLenOfField(cm.Y, exprsF) {
-										upper = true
-									}
-								}
-								if upper {
-									okOps = true
-									// every evaluated operand is appended: no way from its evaluation to the next iteration around the append
-									hdr := ib.(*ssa.Phi).Block().Instrs[0]
-									errv := extractOf(ec, 1)
-									cutErr := func(pred, succ *ssa.BasicBlock) bool {
-										iff, ok := pred.Instrs[len(pred.Instrs)-1].(*ssa.If)
-										if !ok || errv == nil {
-											return false
-										}
-										for _, cm := range trueCmps(fact{iff.Cond, pred.Succs[0] == succ}) {
-											if cm.Op == token.NEQ && cm.Y != nil && cm.X == ssa.Value(errv) && isNilConst(cm.Y) {
-												return true
-											}
-										}
-										return false
-									}
-									if p := c.fc.pathFrom(fn, ec, func(x ssa.Instruction) bool { return x == hdr }, func(x ssa.Instruction) bool { return x == ssa.Instruction(ap) }, cutErr); p != nil {
-										okOps, why = false, "an operand can be evaluated without its result being combined (it is skipped on some path)"
-									}
-								} else {
-									why = "the operand loop does not run over all of Exprs"
-								}
-							} else {
-								why = "the operand loop does not start at the first operand"
-							}
-						}
-					}
-				}
-			}
-		} else {
-			why = fmt.Sprintf("operands are collected at %d append sites", len(appends))
-		}
+		isExprsField := func(v ssa.Value) bool { return path(v).lastField() == exprsF }
+		okOps, why := operandLoop(c, fn, arg, isExprsField, 0)
 		c.r.check(okOps, rule, name, spec.what+" of the evaluation results of every operand", why, c.w.ipos(cb))
 	}
 }
@@ -718,4 +676,125 @@ func levelOfValue(vroot ssa.Value) ssa.Value {
 		return nil
 	}
 	return p.Root
+}
+
+// operandLoop: slice value v (in fn) is built by appending, for every element of the source slice (isSrc) in range order,
+// the result of calling eval on that element, and every evaluated operand is appended. v may also be the result of a
+// module helper that does exactly that for one of its parameters, which is bound to the source slice at the call.
+func operandLoop(c *Ctx, fn *ssa.Function, v ssa.Value, isSrc func(ssa.Value) bool, depth int) (bool, string) {
+	return elementLoop(c, fn, v, isSrc, evalCallElem, depth)
+}
+
+// evalCallElem recognises `x.eval(idx)` on an Expression and returns x.
+func evalCallElem(ec *ssa.Call) (ssa.Value, bool) {
+	if !ec.Call.IsInvoke() || ec.Call.Method.Name() != "eval" {
+		return nil, false
+	}
+	return ec.Call.Value, true
+}
+
+// elementLoop is operandLoop for an arbitrary per-element call (elemCall returns the element the call works on).
+func elementLoop(c *Ctx, fn *ssa.Function, v ssa.Value, isSrc func(ssa.Value) bool, elemCall func(*ssa.Call) (ssa.Value, bool), depth int) (bool, string) {
+	if depth > 2 {
+		return false, "operand collection is nested too deep in helpers"
+	}
+	if call, callee, vals, ok := resultOrigins(c.w, v); ok {
+		// which parameter receives the source slice?
+		var srcParam ssa.Value
+		for k, a := range call.Call.Args {
+			if isSrc(a) && k < len(callee.Params) {
+				srcParam = callee.Params[k]
+			}
+		}
+		if srcParam == nil {
+			return false, "the helper that collects the operands is not given the operand list"
+		}
+		for _, rv := range vals {
+			if isNilConst(rv) {
+				continue // error returns
+			}
+			if ok, why := elementLoop(c, callee, rv, func(x ssa.Value) bool { return x == srcParam }, elemCall, depth+1); !ok {
+				return false, why
+			}
+		}
+		return true, ""
+	}
+	var appends []*ssa.Call
+	seen := map[ssa.Value]bool{}
+	var walk func(v ssa.Value)
+	walk = func(v ssa.Value) {
+		if seen[v] {
+			return
+		}
+		seen[v] = true
+		switch x := v.(type) {
+		case *ssa.Phi:
+			for _, e := range x.Edges {
+				walk(e)
+			}
+		case *ssa.Call:
+			if b, ok := x.Call.Value.(*ssa.Builtin); ok && b.Name() == "append" {
+				appends = append(appends, x)
+				walk(x.Call.Args[0])
+			}
+		}
+	}
+	walk(v)
+	if len(appends) != 1 {
+		return false, fmt.Sprintf("operands are collected at %d append sites", len(appends))
+	}
+	ap := appends[0]
+	el := variadicElem(ap.Call.Args[1])
+	e, ok := el.(*ssa.Extract)
+	if !ok || e.Index != 0 {
+		return false, "what is appended is not an operand's evaluation result"
+	}
+	ec, ok := e.Tuple.(*ssa.Call)
+	if !ok {
+		return false, "what is appended is not an operand's evaluation result"
+	}
+	elemV, ok := elemCall(ec)
+	if !ok {
+		return false, "what is appended is not an operand's evaluation result"
+	}
+	ld, ok := elemV.(*ssa.UnOp)
+	if !ok {
+		return false, "the evaluated operand is not an element of the operand list"
+	}
+	ia, ok := ld.X.(*ssa.IndexAddr)
+	if !ok || !isSrc(ia.X) {
+		return false, "the evaluated operand is not an element of the operand list"
+	}
+	ib, io := lin(ia.Index)
+	lb, isCtr := phiLower(ib)
+	if !isCtr || lb+io != 0 {
+		return false, "the operand loop does not start at the first operand"
+	}
+	upper := false
+	for _, cm := range cmpsAt(ec) {
+		if cm.Y != nil && cm.Op == token.LSS && cm.X == ia.Index && isLenOf(cm.Y, ia.X) {
+			upper = true
+		}
+	}
+	if !upper {
+		return false, "the operand loop does not run over the whole operand list"
+	}
+	hdr := ib.(*ssa.Phi).Block().Instrs[0]
+	errv := extractOf(ec, 1)
+	cutErr := func(pred, succ *ssa.BasicBlock) bool {
+		iff, ok := pred.Instrs[len(pred.Instrs)-1].(*ssa.If)
+		if !ok || errv == nil {
+			return false
+		}
+		for _, cm := range trueCmps(fact{iff.Cond, pred.Succs[0] == succ}) {
+			if cm.Op == token.NEQ && cm.Y != nil && cm.X == ssa.Value(errv) && isNilConst(cm.Y) {
+				return true
+			}
+		}
+		return false
+	}
+	if p := c.fc.pathFrom(fn, ec, func(x ssa.Instruction) bool { return x == hdr }, func(x ssa.Instruction) bool { return x == ssa.Instruction(ap) }, cutErr); p != nil {
+		return false, "an operand can be evaluated without its result being combined (it is skipped on some path)"
+	}
+	return true, ""
 }
